@@ -59,7 +59,7 @@ Ltac fin := cbn; intuition (try discriminate; try congruence).
 
 Theorem site_diags_iff d s : In d (site_diags s) <-> violates d s.
 Proof.
-  destruct s as [callee n ops|o|o|ops|lq rq|e n|t|sc|sc|sc|sc|du]; cbn [site_diags].
+  destruct s as [callee n ops|o|o|ops|lq rq|e n|t fits|sc|sc|sc|sc|du]; cbn [site_diags].
   - rewrite in_app_iff, in_flat.
     destruct callee as [np nq| | | | | |]; cbn [violates].
     + rewrite in_app_iff.
@@ -75,7 +75,7 @@ Proof.
   - rewrite in_flat. destruct d; fin.
   - destruct lq, rq, d; fin.
   - destruct (N.eqb_spec e n), d; fin.
-  - destruct t as [| | | | |c|]; try destruct c; destruct d; fin.
+  - destruct t as [| | | | |c|]; try destruct c; destruct fits; destruct d; fin.
   - destruct sc, d; fin.
   - destruct sc, d; fin.
   - destruct sc, d; fin.
